@@ -463,6 +463,11 @@ func lifecycleModel(def *probeDef, act Action, scope, cfgState string, vals Prob
 	if isCert && scope == "unclear" {
 		return lcExpect{Why: "scope not clear-cut"}
 	}
+	if act.Panic != "" && !isCert {
+		// no containment is promised on the CRL / OCSP paths: what a panicking probe of those kinds gets is not
+		// judged - what the *other* lints of a call that nevertheless returns get is (they are judged as usual)
+		return lcExpect{Why: "panicking CRL / OCSP probe: not judged"}
+	}
 	panics := act.Panic != "" && isCert
 	at := act.PanicAt
 	if at == "" {
@@ -534,9 +539,15 @@ func (h *histState) doProbe(i int, op *Op) {
 	}
 	clog := callLog
 	callLog = nil
+	foreignPanic := cs.Panic != "" && o.spec.Kind != KCert && scriptedPanicOfKind(o.spec.Kind, m.Sel)
 	curScript = nil
 	h.curScriptBad = nil
 	o.linted = true
+	if foreignPanic {
+		// a CRL / OCSP probe scripted to panic took the call with it: nothing of this call is judged
+		h.log.Add("op %d probe obj=%d reg=%d: a scripted %s probe panic left the call (not judged)", i, op.Obj, op.Reg, kindNames[o.spec.Kind])
+		return
+	}
 	h.ctr.inc("probe_ops")
 	h.ctr.inc("probe_path_" + path)
 	rec := &lintRecord{op: i, obj: op.Obj, reg: op.Reg, cfg: m.Cfg, path: path, fresh: op.Fresh, canon: cs, partial: partial, sel: m.Sel, script: op.Script}
@@ -862,7 +873,7 @@ func genAction(g *RNG, def *probeDef, prop string) Action {
 	if def.Configurable && g.Chance(0.5) {
 		a.Echo = true
 	}
-	if def.Kind == KCert && g.Chance(0.15) {
+	if (def.Kind == KCert && g.Chance(0.15)) || (def.Kind != KCert && g.Chance(0.03)) {
 		a.Panic = pick(g, []string{"string", "error", "runtime", "custom"})
 		ats := []string{"execute", "execute", "applies"}
 		if def.Configurable {
